@@ -41,22 +41,47 @@ func (e *Engine) symRangeInit(st *State, fr *Frame, in *ssa.Range, obj *MapObj, 
 		ordinal: loopOrdinal(in), fn: fr.fn}
 }
 
-// loopOrdinal numbers the range/for loops of a function in source order (1-based) by the position of the Range.
-func loopOrdinal(in ssa.Instruction) int {
-	fn := in.Parent()
-	var poss []int
+// loopHeaders lists the loop headers of a function (blocks with a back edge), ordered by source position.
+func loopHeaders(fn *ssa.Function) []*ssa.BasicBlock {
+	var hs []*ssa.BasicBlock
 	for _, b := range fn.Blocks {
-		for _, i := range b.Instrs {
-			switch i.(type) {
-			case *ssa.Range:
-				poss = append(poss, int(i.Pos()))
+		for _, p := range b.Preds {
+			if b.Dominates(p) {
+				hs = append(hs, b)
+				break
 			}
 		}
 	}
-	sort.Ints(poss)
-	for n, p := range poss {
-		if p == int(in.Pos()) {
-			return n + 1
+	pos := func(b *ssa.BasicBlock) int {
+		best := 0
+		for _, in := range b.Instrs {
+			if p := int(in.Pos()); p > 0 && (best == 0 || p < best) {
+				best = p
+			}
+		}
+		if best == 0 {
+			return b.Index * 1000000000
+		}
+		return best
+	}
+	sort.Slice(hs, func(i, j int) bool { return pos(hs[i]) < pos(hs[j]) })
+	return hs
+}
+
+// loopOrdinal: 1-based number of the loop (in source order) whose header contains `in` (or is the successor
+// of the block containing a Range instruction).
+func loopOrdinal(in ssa.Instruction) int {
+	b := in.Block()
+	if _, ok := in.(*ssa.Range); ok && len(b.Succs) == 1 {
+		b = b.Succs[0]
+	}
+	return headerOrdinal(b)
+}
+
+func headerOrdinal(b *ssa.BasicBlock) int {
+	for i, h := range loopHeaders(b.Parent()) {
+		if h == b {
+			return i + 1
 		}
 	}
 	return 0
@@ -183,7 +208,7 @@ func (e *Engine) symRangeNext(st *State, fr *Frame, in *ssa.Next, it *rangeIter)
 	nobj.NilT = TFalse
 	nobj.Fresh = false
 	st.heap[sr.cell] = nobj
-	e.havocLoopTargets(st, fr, in.Block())
+	_ = e.havocLoopTargets(st, fr, in.Block())
 	for _, t := range e.evalInvariant(st, cls, cur, sr.m0, visited, true) {
 		st.assume(t)
 	}
@@ -240,7 +265,42 @@ func (e *Engine) symRangeNext(st *State, fr *Frame, in *ssa.Next, it *rangeIter)
 }
 
 // havocLoopTargets havocks heap cells and maps assigned inside the loop whose header is `header`, and header phis.
-func (e *Engine) havocLoopTargets(st *State, fr *Frame, header *ssa.BasicBlock) {
+// ptrChoice is a pointer-typed location havocked by a loop rule: it may be nil, a fresh object, or alias an input.
+type ptrChoice struct {
+	set     func(st *State, v Value)
+	options []Value
+}
+
+func (e *Engine) ptrOptions(st *State, fr *Frame, t types.Type, hint string) []Value {
+	opts := []Value{VNil{}, e.havoc(st, t, hint)}
+	add := func(v Value, vt types.Type) {
+		if p, ok := v.(VPtr); ok && types.Identical(vt, t) {
+			for _, o := range opts {
+				if op, ok := o.(VPtr); ok && op == p {
+					return
+				}
+			}
+			opts = append(opts, p)
+		}
+	}
+	for _, p := range fr.fn.Params {
+		add(fr.regs[p], p.Type())
+	}
+	for _, fv := range fr.fn.FreeVars {
+		add(fr.regs[fv], fv.Type())
+	}
+	return opts
+}
+
+func (e *Engine) havocLoopTargets(st *State, fr *Frame, header *ssa.BasicBlock) []ptrChoice {
+	var choices []ptrChoice
+	isPtrToStruct := func(t types.Type) bool {
+		if p, ok := t.Underlying().(*types.Pointer); ok {
+			_, isS := p.Elem().Underlying().(*types.Struct)
+			return isS
+		}
+		return false
+	}
 	blocks := loopBlocks(header)
 	for b := range blocks {
 		for _, ins := range b.Instrs {
@@ -249,11 +309,28 @@ func (e *Engine) havocLoopTargets(st *State, fr *Frame, header *ssa.BasicBlock) 
 				if v, ok := fr.regs[x.Addr]; ok {
 					if p, ok := v.(VPtr); ok {
 						et := x.Addr.Type().(*types.Pointer).Elem()
-						e.store(st, p, e.havoc(st, et, "loopvar"))
+						if isPtrToStruct(et) {
+							pp := p
+							choices = append(choices, ptrChoice{set: func(s *State, v Value) { e.store(s, pp, v) },
+								options: e.ptrOptions(st, fr, et, "loopvar")})
+						} else {
+							e.store(st, p, e.havoc(st, et, "loopvar"))
+						}
 					}
 				} else if g, ok := x.Addr.(*ssa.Global); ok {
 					cell := e.globalCell(st, g)
 					st.heap[cell] = e.havoc(st, g.Type().(*types.Pointer).Elem(), "loopglobal")
+				}
+			case *ssa.MakeInterface:
+				// a pointer to a field of an outer variable escapes into an interface (e.g. Scan(&e.key)):
+				// the callee may assign through it
+				if fa, ok := x.X.(*ssa.FieldAddr); ok {
+					if v, ok := fr.regs[fa.X]; ok {
+						if p, ok := v.(VPtr); ok {
+							ft := fa.Type().(*types.Pointer).Elem()
+							e.store(st, VPtr{Cell: p.Cell, Path: fmt.Sprintf("%s.%d", p.Path, fa.Field)}, e.havoc(st, ft, "escaped"))
+						}
+					}
 				}
 			case *ssa.MapUpdate:
 				if v, ok := fr.regs[x.Map]; ok {
@@ -270,9 +347,16 @@ func (e *Engine) havocLoopTargets(st *State, fr *Frame, header *ssa.BasicBlock) 
 	}
 	for _, ins := range header.Instrs {
 		if phi, ok := ins.(*ssa.Phi); ok {
-			fr.regs[phi] = e.havoc(st, phi.Type(), "loopphi")
+			if isPtrToStruct(phi.Type()) {
+				ph := phi
+				choices = append(choices, ptrChoice{set: func(s *State, v Value) { fr.regs[ph] = v },
+					options: e.ptrOptions(st, fr, phi.Type(), "loopphi")})
+			} else {
+				fr.regs[phi] = e.havoc(st, phi.Type(), "loopphi")
+			}
 		}
 	}
+	return choices
 }
 
 func (e *Engine) havocMap(st *State, v Value) {
@@ -297,6 +381,14 @@ func (e *Engine) havocMap(st *State, v Value) {
 	st.heap[mv.Cell] = n
 }
 
+// addReachObl: a must-fail obligation "false" at a loop back edge (refuted = the body is reachable).
+func (e *Engine) addReachObl(st *State, cl Clause, fn string) {
+	tmp := st.clone()
+	e.instantiateAll(tmp, nil, nil)
+	e.sideObls = append(e.sideObls, sideObl{id: fn + ".loop-body-reachable@" + fmt.Sprint(cl.Line), kind: "mustfail", clause: "false (vacuity guard: loop body reachable)",
+		props: cl.Props, line: cl.Line, header: e.scriptHeader(tmp, nil), goal: TFalse})
+}
+
 // addSideObl records an obligation generated in the middle of a path (loop invariants, call-site requires).
 func (e *Engine) addSideObl(st *State, cl Clause, phase string, goal Term) {
 	tmp := st.clone()
@@ -305,17 +397,211 @@ func (e *Engine) addSideObl(st *State, cl Clause, phase string, goal Term) {
 		header: e.scriptHeader(tmp, nil), goal: goal})
 }
 
+// Cursor rule: rows.Next() yields "no more rows" or an arbitrary row that satisfies the statement's WHERE
+// (a Skolem row id constrained by present && where); rows.Scan assigns the selected expressions of that row.
+// Order and multiplicity of the rows are statement-level obligations (cursorWhere / cursorOrderBy in contracts).
 func sqlRowsNext(e *Engine, st *State, args []Value, depth int, pos string, k func(*State, Value)) {
-	st.incomplete = "cursor loop without a loop invariant at " + pos
-	e.endPath(st)
+	ra, ok := args[0].(VAbs)
+	if !ok || ra.Kind != "rows" {
+		if _, isnil := args[0].(VNil); isnil {
+			e.panicPath(st, depth-1, "Next on nil *sql.Rows at "+pos)
+			return
+		}
+		k(st, sym(e.fresh(st, "rows.next", SBool)))
+		return
+	}
+	ro := ra.Data.(*RowsObj)
+	st2 := st.clone()
+	st2.addTrace(TraceEv{Kind: "rows.end", Pos: pos})
+	k(st2, sym(TFalse))
+	// a further row
+	st.addTrace(TraceEv{Kind: "rows.next", Pos: pos})
+	if ro.Stmt != nil && ro.Stmt.Kind == "select" && strings.EqualFold(ro.Stmt.Table, "documents") && len(ro.Stmt.Join) == 0 {
+		id := e.fresh(st, "cursor.id", SDocId)
+		c := &evalCtx{e: e, st: st, params: ro.Params, table: "documents"}
+		c.row, c.id = Select(ro.Docs, id, SRow), id
+		st.assume(rowPresent(c.row))
+		st.assume(c.where(ro.Stmt.Where))
+		if st.cursor == nil {
+			st.cursor = map[int]Term{}
+		} else {
+			nc := make(map[int]Term, len(st.cursor))
+			for a, b := range st.cursor {
+				nc[a] = b
+			}
+			st.cursor = nc
+		}
+		st.cursor[ro.ID] = id
+		st.lastCursor = id
+		st.lastCursorDocs = ro.Docs
+	}
+	k(st, sym(TTrue))
 }
 
 func sqlRowsScan(e *Engine, st *State, args []Value, depth int, pos string, k func(*State, Value)) {
-	st.incomplete = "cursor scan without a loop invariant at " + pos
-	e.endPath(st)
+	ra, ok := args[0].(VAbs)
+	if !ok || ra.Kind != "rows" {
+		k(st, e.havoc(st, types.Universe.Lookup("error").Type(), "scanerr"))
+		return
+	}
+	ro := ra.Data.(*RowsObj)
+	dests := e.sliceElems(st, args[1])
+	e.forkDBError(st, func(st *State, err Value) { k(st, err) }, func(st *State) {
+		var cols []SQLVal
+		if id, ok := st.cursor[ro.ID]; ok && ro.Stmt != nil {
+			c := &evalCtx{e: e, st: st, params: ro.Params, table: "documents"}
+			c.row, c.id = Select(ro.Docs, id, SRow), id
+			for _, it := range ro.Stmt.Sel {
+				if it.Star {
+					cols = append(cols, SQLVal{Any: true})
+				} else {
+					cols = append(cols, c.eval(it.Expr))
+				}
+			}
+		}
+		st.addTrace(TraceEv{Kind: "rows.scan", Pos: pos})
+		e.assignDests(st, cols, dests, pos)
+		k(st, VNil{})
+	})
 }
 
 func (e *Engine) callByContract(st *State, fn *ssa.Function, ct *Contract, args []Value, depth int, pos string, k func(*State, Value)) {
 	// filled in later: assert requires, havoc, assume ensures
 	e.callFunction(st, fn, args, nil, depth, k)
+}
+
+// genericLoopHeader implements the cut-point rule for loops that carry an invariant in the contract file
+// (index/condition/cursor loops). Returns true if the path ended here (back edge).
+func (e *Engine) genericLoopHeader(st *State, fr *Frame, b *ssa.BasicBlock) (handled bool, ended bool) {
+	ord := headerOrdinal(b)
+	if ord == 0 {
+		return false, false
+	}
+	cls := e.loopInvariants(fr.fn, ord)
+	if cls == nil {
+		return false, false
+	}
+	// map-range loops over symbolic maps are handled at the Next instruction
+	for _, in := range b.Instrs {
+		if nx, ok := in.(*ssa.Next); ok && !nx.IsString {
+			if itv, ok := fr.regs[nx.Iter].(VAbs); ok && itv.Kind == "iter" {
+				if it, ok := itv.Data.(*rangeIter); ok && it.sym != nil {
+					return false, false
+				}
+			}
+		}
+	}
+	key := fmt.Sprintf("genloop/%d/%d", fr.id, b.Index)
+	var invs []Clause
+	for _, cl := range cls {
+		if cl.Kind == "invariant" {
+			invs = append(invs, cl)
+		}
+	}
+	if st.visits[key] > 0 {
+		for i, g := range e.evalLoopClauses(st, fr, cls, key, false) {
+			phase := "preserved"
+			if cls[i].Kind == "body" {
+				phase = "iteration"
+			}
+			e.addSideObl(st, cls[i], phase, g)
+		}
+		// vacuity guard: the back edge must be reachable under the assumed invariants
+		e.addReachObl(st, cls[0], fr.fn.Name())
+		return true, true
+	}
+	st.visits[key] = 1
+	for i, g := range e.evalLoopClauses(st, fr, invs, "", false) {
+		e.addSideObl(st, invs[i], "entry", g)
+	}
+	choices := e.havocLoopTargets(st, fr, b)
+	if st.loopMark == nil {
+		st.loopMark = map[string]int{}
+	} else {
+		nm := make(map[string]int, len(st.loopMark))
+		for k, v := range st.loopMark {
+			nm[k] = v
+		}
+		st.loopMark = nm
+	}
+	st.loopMark[key] = len(st.trace)
+	// enumerate the aliasing alternatives of havocked pointer variables (bounded fan-out)
+	combos := [][]Value{nil}
+	for _, c := range choices {
+		var next [][]Value
+		for _, pre := range combos {
+			for _, o := range c.options {
+				next = append(next, append(append([]Value{}, pre...), o))
+			}
+		}
+		combos = next
+		if len(combos) > 64 {
+			st.incomplete = "too many aliasing alternatives at a loop head"
+			break
+		}
+	}
+	k := 0
+	for k < len(b.Instrs) {
+		if _, ok := b.Instrs[k].(*ssa.Phi); !ok {
+			break
+		}
+		k++
+	}
+	for ci, combo := range combos {
+		s2 := st
+		if ci < len(combos)-1 {
+			s2 = st.clone()
+		}
+		for j, v := range combo {
+			choices[j].set(s2, v)
+		}
+		for _, t := range e.evalLoopClauses(s2, fr, invs, "", true) {
+			s2.assume(t)
+		}
+		if ci < len(combos)-1 {
+			s2.visits[fmt.Sprintf("%d/%d", fr.id, b.Index)]--
+			e.runFrom(s2, fr, b, k)
+		}
+	}
+	return true, false
+}
+
+// evalLoopClauses evaluates invariants of a generic loop: they may mention the parameters and free variables of
+// the enclosing function and the ghost trace of the current iteration (iter("kind")).
+func (e *Engine) evalLoopClauses(st *State, fr *Frame, cls []Clause, iterKey string, assume bool) []Term {
+	vars := map[string]Value{}
+	typs := map[string]types.Type{}
+	for _, p := range fr.fn.Params {
+		if v, ok := fr.regs[p]; ok {
+			vars[p.Name()] = v
+			typs[p.Name()] = p.Type()
+		}
+	}
+	for _, fv := range fr.fn.FreeVars {
+		if v, ok := fr.regs[fv]; ok {
+			vars[fv.Name()] = v
+			typs[fv.Name()] = fv.Type()
+		}
+	}
+	var out []Term
+	for _, cl := range cls {
+		pre := st
+		if st.entry != nil {
+			pre = st.entry.clone()
+		}
+		env := &rEnv{e: e, pre: pre, post: st, vars: copyVars(vars), typs: typs, specs: e.contracts.specs, iterKey: iterKey}
+		if assume {
+			env.pol, env.assuming = -1, true
+		} else {
+			env.pol = 1
+		}
+		t := env.term(cl.Node)
+		if env.err != nil {
+			st.incomplete = "loop invariant does not evaluate: " + env.err.Error()
+			out = append(out, TFalse)
+			continue
+		}
+		out = append(out, t)
+	}
+	return out
 }
